@@ -7,15 +7,20 @@ from engine.embedded import parse_regex, first_chars, count_groups, capture_bodi
 from .common import calls_named
 
 EXPLANATION = (
-    "Rules on the regular-expression fragments that Router.patternToRegex concatenates (string constants per branch, parsed with "
-    "re._parser - nothing is compiled against data or matched). Decides: (R1) every fragment (the four parameter kinds, the literal "
-    "prefix, the trailer) can only begin with '/', so a preceding literal cannot match a proper prefix of a path segment; (R2) "
-    "single-segment captures exclude '/', plain and + need at least one character, ? and * allow none; (R3) each parameter branch "
-    "appends exactly one token and its fragment has exactly one capturing group, literal and trailer fragments have none, getRoute "
-    "zips tokens with m.groups(); (R4) the pattern is anchored (^...$), getRoute uses match(), the trailer is one optional '/'; "
-    "(R5) routes are appended per method and tried in registration order, first match wins, None for no match / unknown method, "
-    "dispatch maps that to 404; (R6) multi-segment kinds are final; (R7) literal text is escaped. Does not decide full language "
-    "equivalence with the prose grammar (empty segments under */+ are not specified precisely enough)."
+    "Rules on the regular expression that Router.patternToRegex builds. The function is a pure string builder: it is partially "
+    "evaluated (engine/minieval.py - an interpreter for assignments, loops, branches, comprehensions and a closed list of pure "
+    "str/list/dict operations; the program itself is never imported or run) on a dozen constant patterns, and the fragment that "
+    "each kind of segment contributes is obtained by differencing the texts built for one- and two-segment patterns, so branches "
+    "with +=, a table of fragments or a joined list are the same to the rules. Fragments are parsed with re._parser - nothing is "
+    "compiled against data or matched. Decides: (R1) every fragment (the four parameter kinds, the literal prefix, the trailer) "
+    "can only begin with '/', so a preceding literal cannot match a proper prefix of a path segment; (R2) single-segment captures "
+    "exclude '/', plain and + need at least one character, ? and * allow none; (R3) each parameter contributes exactly one token "
+    "(its name without ':' and suffix, in pattern order) and one capturing group, literal and trailer fragments have none, getRoute "
+    "zips the route's tokens with the groups of the match of that route's pattern; (R4) the text is anchored (^...$), empty "
+    "segments do not contribute, the trailer is one optional '/' after every kind of last segment, getRoute uses match(); (R5) "
+    "routes are appended per method and tried in registration order, first match wins, None for no match / unknown method, dispatch "
+    "maps that to 404; (R6) a second ?/*/+ parameter is refused with ValueError; (R7) literal text is escaped; (R9) per-router route "
+    "lists. Does not decide full language equivalence with the prose grammar (empty segments under */+ are not specified precisely)."
 )
 ASSUMPTIONS = ["re semantics as documented; re.escape makes every character literal"]
 
@@ -23,55 +28,87 @@ PTR = "http_server:Router.patternToRegex"
 UNIVERSE = "/ab.-_0:% ?+*"
 
 
-def fragments(ctx):
-    """kind -> (fragment constant text, has_dynamic_tail, branch body, AugAssign node)"""
+_EV = {}
+
+
+def evaluated(ctx):
+    """facts about Router.patternToRegex obtained by partial evaluation (engine/minieval.py) on constant patterns: the regular
+    expression text and token list it builds, or the exception it raises.  The statements may be arranged in any way (branches
+    with +=, a table of fragments, a list that is joined): what counts is the string that reaches re.compile."""
+    key = id(ctx.repo)
+    if key in _EV:
+        return _EV[key]
+    from engine.minieval import MiniEval
     fi = ctx.fn(PTR)
+
+    def P(pattern):
+        me = MiniEval(ctx.repo, ctx.folder, fi, symbolic={"re.compile"})
+        r = me.call([pattern])
+        if r[0] == "raise":
+            return ("raise", r[1])
+        v = r[1]
+        if not (isinstance(v, tuple) and len(v) == 2 and isinstance(v[0], tuple) and v[0][:2] == ("<sym>", "re.compile") and len(v[0][2]) >= 1
+                and isinstance(v[0][2][0], str) and isinstance(v[1], list)):
+            raise Undecided("patternToRegex does not return (re.compile(<text>), <token list>): %r" % (v,))
+        return ("ok", v[0][2][0], v[1], v[0][2][1:], v[0][3])
+    facts = {"P": P, "fi": fi}
+    _EV[key] = facts
+    return facts
+
+
+def fragments(ctx):
+    """kind -> (fragment text, escaped?, function node): the fragment each kind of pattern segment contributes, by differencing
+    the texts built for one- and two-segment patterns (which also shows that the translation is a concatenation per segment)"""
+    ev = evaluated(ctx)
+    if "fragments" in ev:
+        return ev["fi"], ev["fragments"]
+    P, fi = ev["P"], ev["fi"]
+
+    def R(pattern):
+        r = P(pattern)
+        if r[0] != "ok":
+            raise Undecided("patternToRegex(%r) raises %s" % (pattern, r[1]))
+        return r[1]
+    rx, ry, rxy = R("/x"), R("/y"), R("/x/y")
+    if not (rxy[:1] == rx[:1] and rxy.endswith(ry[1:])):
+        raise Undecided("patternToRegex is not a per-segment concatenation: %r %r %r" % (rx, ry, rxy))
+    f_x = rxy[1:len(rxy) - len(ry) + 1]
+    tail = rx[1 + len(f_x):]                 # trailer + '$'
     out = {}
-    for n in walk_own(fi.node):
-        if isinstance(n, ast.AugAssign) and norm(n.target) == "re_str" and isinstance(n.op, ast.Add):
-            v = n.value
-            dyn = None
-            if isinstance(v, ast.BinOp) and isinstance(v.op, ast.Add):
-                prefix = ctx.folder.fold(v.left, fi.module)
-                dyn = v.right
-            else:
-                prefix = ctx.folder.fold(v, fi.module)
-            if not isinstance(prefix, str):
-                raise Undecided("router fragment does not fold: %s" % norm(v))
-            # classify by the enclosing tests
-            conds = []
-            p = n
-            child = n
-            while p is not fi.node:
-                pp = p._parent
-                if isinstance(pp, ast.If):
-                    conds.append((norm(pp.test), child in pp.body or any(child is s for s in pp.body)))
-                child = pp
-                p = pp
-            ctext = [c for c in conds]
-            kind = None
-            for (t, pos) in ctext:
-                if t == "c == '?'" and pos:
-                    kind = "?"
-                elif t == "c == '*'" and pos:
-                    kind = "*"
-                elif t == "c == '+'" and pos:
-                    kind = "+"
-            if kind is None:
-                if ("part.startswith(':')", True) in ctext:
-                    kind = "plain"
-                elif ("part.startswith(':')", False) in ctext:
-                    kind = "literal"
-                elif any(t.startswith("re_str != ") for (t, pos) in ctext):
-                    kind = "trailer"
-                elif prefix == "$":
-                    kind = "end"
-                else:
-                    kind = "other:" + norm(v)
-            if kind in out:
-                raise Undecided("two fragments for kind %s" % kind)
-            out[kind] = (prefix, dyn, n)
+    node = fi.node
+    end = "$" if tail.endswith("$") else ""
+    out["end"] = (end, None, node)
+    out["trailer"] = (tail[:len(tail) - len(end)], None, node)
+    ev["no_trailer"] = []
+    # literal: constant prefix + escaped text
+    esc = R("/a.b/y")
+    f_ab = esc[1:len(esc) - len(ry) + 1]
+    import re as _re
+    prefix = f_x[:len(f_x) - 1] if f_x.endswith("x") else None
+    escaped = prefix is not None and f_ab == prefix + _re.escape("a.b")
+    out["literal"] = (prefix if prefix is not None else f_x, escaped, node)
+    for kind, seg in (("plain", ":n"), ("?", ":n?"), ("*", ":n*"), ("+", ":n+")):
+        r = R("/x/" + seg)
+        if not r[1:].startswith(f_x):
+            raise Undecided("patternToRegex(%r) does not start with the translation of its first segment: %r" % ("/x/" + seg, r))
+        rest = r[1 + len(f_x):]
+        if tail and rest.endswith(tail):
+            out[kind] = (rest[:len(rest) - len(tail)], None, node)
+        else:
+            # the trailer does not follow this kind of last segment: the whole rest (without the end anchor) is its fragment
+            ev["no_trailer"].append(kind)
+            out[kind] = (rest[:len(rest) - len(end)] if end and rest.endswith(end) else rest, None, node)
+    ev["fragments"] = out
     return fi, out
+
+
+def _parents_of(node, stop):
+    out = []
+    p = getattr(node, "_parent", None)
+    while p is not None and p is not stop:
+        out.append(p)
+        p = getattr(p, "_parent", None)
+    return out
 
 
 def r1(ctx):
@@ -115,39 +152,50 @@ def r2(ctx):
 
 def r3(ctx):
     fi, fr = fragments(ctx)
-    from .capacity import _block_of
-    for kind in ("?", "*", "+", "plain"):
+    P = evaluated(ctx)["P"]
+    for kind, seg in (("?", ":name?"), ("*", ":name*"), ("+", ":name+"), ("plain", ":name")):
         if kind not in fr:
             continue
         text, dyn, node = fr[kind]
-        blk = _block_of(node)
-        apps = [s for s in blk if isinstance(s, ast.Expr) and isinstance(s.value, ast.Call) and norm(s.value.func) == "tokens.append"]
+        r = P("/x/" + seg)
+        toks = r[2] if r[0] == "ok" else None
         n_groups = count_groups(parse_regex(text))
-        ctx.check(len(apps) == 1 and n_groups == 1, "C16.R3", fi, "%s: one token, one capturing group" % kind, "values are paired with names positionally",
-                  witness={"tokens.append": len(apps), "groups": n_groups}, line=node.lineno)
-        if apps:
-            want = "part[1:-1]" if kind != "plain" else "part[1:]"
-            ctx.check(norm(apps[0].value.args[0]) == want, "C16.R3", fi, "%s: token name = %s" % (kind, want), witness=norm(apps[0].value.args[0]), line=node.lineno)
+        ctx.check(toks is not None and len(toks) == 1 and n_groups == 1, "C16.R3", fi, "%s: one token, one capturing group" % kind, "values are paired with names positionally",
+                  witness={"tokens": toks, "groups": n_groups}, line=node.lineno)
+        ctx.check(toks == ["name"], "C16.R3", fi, "%s: token name = the segment without ':' and without its suffix" % kind, witness=toks, line=node.lineno)
+    r = P("/a/:p/b/:q?")
+    ctx.check(r[0] == "ok" and r[2] == ["p", "q"], "C16.R3", fi, "tokens are collected in pattern order", witness=r[2] if r[0] == "ok" else r)
     for kind in ("literal", "trailer", "end"):
         if kind in fr:
             ctx.check(count_groups(parse_regex(fr[kind][0])) == 0, "C16.R3", fi, "%s fragment has no capturing group" % kind, line=fr[kind][2].lineno)
     gr = ctx.fn("http_server:Router.getRoute")
     z = [c for c in walk_own(gr.node) if isinstance(c, ast.Call) and norm(c.func) == "zip"]
-    ctx.check(len(z) == 1 and [norm(a) for a in z[0].args] == ["tokens", "m.groups()"], "C16.R3", gr, "getRoute pairs tokens with m.groups()", witness=[norm(c) for c in z])
-    rets = [n for n in walk_own(fi.node) if isinstance(n, ast.Return)]
-    ctx.check(len(rets) == 1 and norm(rets[0].value) == "(re.compile(re_str), tokens)", "C16.R3", fi, "patternToRegex returns (compiled pattern, tokens)", witness=[norm(r.value) for r in rets])
+    ok = len(z) == 1 and len(z[0].args) == 2 and norm(z[0].args[0]) in ("tokens", "names") and isinstance(z[0].args[1], ast.Call) and isinstance(z[0].args[1].func, ast.Attribute) \
+        and z[0].args[1].func.attr == "groups"
+    if ok:
+        # the first zip argument is the token list stored with the route, the second the groups of the match of that route's pattern
+        lp = [p_ for p_ in _parents_of(z[0], gr.node) if isinstance(p_, ast.For)]
+        ok = bool(lp) and isinstance(lp[0].target, ast.Tuple) and len(lp[0].target.elts) == 3 and norm(lp[0].target.elts[1]) == norm(z[0].args[0])
+        mv = norm(z[0].args[1].func.value)
+        ms = [n for n in walk_own(gr.node) if isinstance(n, ast.Assign) and norm(n.targets[0]) == mv and isinstance(n.value, ast.Call) and isinstance(n.value.func, ast.Attribute)
+              and n.value.func.attr in ("match", "fullmatch") and lp and norm(n.value.func.value) == norm(lp[0].target.elts[0])]
+        ok = ok and len(ms) == 1
+    ctx.check(ok, "C16.R3", gr, "getRoute pairs tokens with m.groups()", witness=[norm(c) for c in z])
+    r = P("/x")
+    ctx.check(r[0] == "ok" and not r[3] and not r[4], "C16.R3", fi, "patternToRegex returns (compiled pattern, tokens)", "re.compile(text) without flags",
+              witness=list(r[3:]) if r[0] == "ok" else r)
 
 
 def r4(ctx):
     fi, fr = fragments(ctx)
-    init = [n for n in walk_own(fi.node) if isinstance(n, ast.Assign) and norm(n.targets[0]) == "re_str"]
-    ctx.check(len(init) == 1 and ctx.folder.fold(init[0].value, fi.module) == "^", "C16.R4", fi, "pattern starts with ^", witness=[norm(i.value) for i in init])
-    ok = "end" in fr and fr["end"][0] == "$"
-    if ok:
-        # the '$' is appended last, unconditionally
-        last = [s for s in fi.node.body if isinstance(s, ast.AugAssign)]
-        ok = bool(last) and last[-1] is fr["end"][2]
-    ctx.check(ok, "C16.R4", fi, "pattern ends with $ (appended last, unconditionally)")
+    P = evaluated(ctx)["P"]
+    samples = ["/", "/x", "/x/:n", "/x/:n?", "/:a/:b*", "/:a+", "/a.b/c"]
+    texts = [P(p_) for p_ in samples]
+    ctx.check(all(t[0] == "ok" and t[1].startswith("^") for t in texts), "C16.R4", fi, "pattern starts with ^", witness=[t[1] if t[0] == "ok" else t for t in texts][:3])
+    ctx.check(all(t[0] == "ok" and t[1].endswith("$") and not t[1].endswith("\\$") for t in texts), "C16.R4", fi, "pattern ends with $ (appended last, unconditionally)",
+              witness=[t[1] if t[0] == "ok" else t for t in texts][:3])
+    ctx.check(not evaluated(ctx).get("no_trailer"), "C16.R4", fi, "the trailer follows every kind of last segment",
+              "a pattern that ends in a parameter matches with and without a trailing slash like every other pattern", witness=evaluated(ctx).get("no_trailer"))
     if "trailer" in fr:
         sub = parse_regex(fr["trailer"][0])
         lo, hi = min_max_len(sub)
@@ -157,8 +205,9 @@ def r4(ctx):
     ms = [c for c in walk_own(gr.node) if isinstance(c, ast.Call) and isinstance(c.func, ast.Attribute) and c.func.attr in ("match", "search", "fullmatch", "findall")]
     ctx.check(len(ms) == 1 and ms[0].func.attr in ("match", "fullmatch") and norm(ms[0].args[0]) == gr.params[2], "C16.R4", gr, "getRoute matches the request path from its start", witness=[norm(m) for m in ms])
     # segments: the pattern is split on '/' and empty parts are dropped
-    parts = [n for n in walk_own(fi.node) if isinstance(n, ast.Assign) and norm(n.targets[0]) == "parts"]
-    ctx.check(len(parts) == 1 and norm(parts[0].value) == "[part for part in pattern.split('/') if part]", "C16.R4", fi, "pattern segments = non-empty parts of pattern.split('/')", witness=[norm(p.value) for p in parts])
+    a_, b_, c_ = P("/x/y"), P("//x///y//"), P("x/y")
+    ctx.check(a_[0] == "ok" and a_[:3] == b_[:3] == c_[:3], "C16.R4", fi, "pattern segments = non-empty parts of pattern.split('/')",
+              "empty segments (doubled, leading, trailing slashes) do not contribute", witness=[a_[1:3], b_[1:3], c_[1:3]])
 
 
 def r5(ctx):
@@ -172,18 +221,26 @@ def r5(ctx):
     ctx.check(len(pr) == 1 and norm(pr[0].args[0]) == "route.pattern", "C16.R5", rr, "each route is compiled from its own pattern")
     gr = ctx.fn("http_server:Router.getRoute")
     cfg = cfg_of(gr)
+    from .common import sym_text
     loops = [n for n in walk_own(gr.node) if isinstance(n, ast.For)]
-    ok = len(loops) == 1 and norm(loops[0].iter) == "self.route_table[%s]" % gr.params[1]
+    ok = len(loops) == 1 and cfg.node_of(loops[0]) is not None and sym_text(gr, loops[0].iter, cfg.node_of(loops[0])) == "self.route_table[%s]" % gr.params[1]
     ctx.check(ok, "C16.R5", gr, "getRoute iterates the request method's routes in order", witness=[norm(l.iter) for l in loops])
     if ok:
         rets = [n for n in ast.walk(loops[0]) if isinstance(n, ast.Return)]
         conds = [(norm(t), p) for (t, p) in cfg.conditions_of(cfg.node_of(rets[0]).id)] if rets else []
-        ok2 = len(rets) == 1 and ("m", True) in conds and isinstance(rets[0].value, ast.Tuple) and norm(rets[0].value.elts[0]) == norm(loops[0].target.elts[2])
+        mvars = [norm(n.targets[0]) for n in ast.walk(loops[0]) if isinstance(n, ast.Assign) and isinstance(n.value, ast.Call) and isinstance(n.value.func, ast.Attribute)
+                 and n.value.func.attr in ("match", "fullmatch")]
+        ok2 = len(rets) == 1 and len(mvars) == 1 and (mvars[0], True) in conds and isinstance(rets[0].value, ast.Tuple) and norm(rets[0].value.elts[0]) == norm(loops[0].target.elts[2])
         ctx.check(ok2, "C16.R5", gr, "the first matching route is returned at once", witness=conds)
         others = [n for n in walk_own(gr.node) if isinstance(n, ast.Return) and n not in rets]
         ctx.check(all(norm(o.value) == "None" for o in others) and len(others) == 2, "C16.R5", gr, "no match / unknown method -> None", witness=[norm(o) for o in others])
         g = [n for n in walk_own(gr.node) if isinstance(n, ast.If) and norm(n.test) == "%s not in self.route_table" % gr.params[1]]
-        ctx.check(len(g) == 1, "C16.R5", gr, "unknown methods are refused before the lookup")
+        # or: the lookup itself is inside try/except KeyError that returns None
+        from .common import enclosing_trys
+        lk = [n for n in walk_own(gr.node) if isinstance(n, ast.Subscript) and norm(n) == "self.route_table[%s]" % gr.params[1] and isinstance(n.ctx, ast.Load)]
+        caught = bool(lk) and all(any(any(h.type is not None and norm(h.type) in ("KeyError", "LookupError") and any(isinstance(x, ast.Return) and norm(x.value) == "None" for x in h.body)
+                                          for h in t.handlers) for t in enclosing_trys(n)) for n in lk)
+        ctx.check(len(g) == 1 or caught, "C16.R5", gr, "unknown methods are refused before the lookup")
     dp = ctx.fn("http_server:Router.dispatch")
     g = [n for n in walk_own(dp.node) if isinstance(n, ast.If) and norm(n.test) == "not result"]
     ok = len(g) == 1 and any("404" in norm(s) for s in g[0].body)
@@ -196,27 +253,28 @@ def r5(ctx):
 
 def r6(ctx):
     fi, fr = fragments(ctx)
-    from .capacity import _block_of
-    for kind in ("?", "*", "+"):
-        if kind not in fr:
-            continue
-        blk = _block_of(fr[kind][2])
-        sets = [s for s in blk if isinstance(s, ast.Assign) and norm(s.targets[0]) == "final" and norm(s.value) == "True"]
-        guard = [s for s in blk if isinstance(s, ast.If) and norm(s.test) == "final" and any(isinstance(x, ast.Raise) for x in s.body)]
-        ok = len(sets) == 1 and len(guard) == 1 and blk.index(guard[0]) < blk.index(fr[kind][2])
-        ctx.check(ok, "C16.R6", fi, "%s is final: refused after another final kind, sets final" % kind, line=fr[kind][2].lineno)
-    init = [n for n in walk_own(fi.node) if isinstance(n, ast.Assign) and norm(n.targets[0]) == "final" and norm(n.value) == "False"]
-    ctx.check(len(init) == 1, "C16.R6", fi, "final starts False")
+    P = evaluated(ctx)["P"]
+    finals = {"?": ":a?", "*": ":a*", "+": ":a+"}
+    for kind, seg in finals.items():
+        alone = P("/x/" + seg)
+        bad = []
+        for k2, seg2 in finals.items():
+            r = P("/x/%s/%s" % (seg, seg2.replace("a", "b")))
+            if r[0] != "raise" or r[1] != "ValueError":
+                bad.append((k2, r[:2]))
+        ctx.check(alone[0] == "ok" and not bad, "C16.R6", fi, "%s is final: refused after another final kind, sets final" % kind,
+                  "a second multi-segment / optional parameter after one makes the translation ambiguous and is refused with ValueError", witness=bad, line=fi.node.lineno)
+    r = P("/:a/:b/x/:c?")
+    ctx.check(r[0] == "ok", "C16.R6", fi, "final starts False", "plain parameters and literals may precede a final parameter", witness=r[:2])
 
 
 def r7(ctx):
     fi, fr = fragments(ctx)
     if "literal" not in fr:
         return
-    text, dyn, node = fr["literal"]
-    ok = isinstance(dyn, ast.Call) and norm(dyn.func) == "re.escape" and len(dyn.args) == 1 and norm(dyn.args[0]) == "part"
-    ctx.check(ok, "C16.R7", fi, "literal segments are passed through re.escape", "an unescaped '.' or '+' in a literal segment would match other paths",
-              witness=norm(dyn) if dyn is not None else None, line=node.lineno)
+    text, escaped, node = fr["literal"]
+    ctx.check(bool(escaped), "C16.R7", fi, "literal segments are passed through re.escape", "an unescaped '.' or '+' in a literal segment would match other paths",
+              witness={"constant_prefix": text, "text_for_a.b": evaluated(ctx)["P"]("/a.b")[1:2]}, line=node.lineno)
 
 
 def r_idioms(ctx):
